@@ -2,10 +2,15 @@
  * directory (readdir / readdir64 on a DIR* obtained from opendir / fdopendir, closedir) and hands the
  * entries of every directory back in an order chosen by the test, not by the host file system:
  *
- *   RDSHIM_MODE = none | sorted | reverse | seed:<n>
+ *   RDSHIM_MODE = none | sorted | reverse | rot:<k> | rrot:<k> | seed:<n>
  *       none    pass-through order (still logged)
  *       sorted  ascending strcmp order of d_name
  *       reverse descending strcmp order
+ *       rot:k   the ascending order rotated left by k (mod the number of entries, "." and ".." included):
+ *               rot:1 hands out "." last, rot:2 hands out the real entries first and "." ".." at the end, ...
+ *       rrot:k  the descending order rotated left by k
+ *               (sorted + reverse give both relative orders of every pair of entries; the rotations put every
+ *               entry in the first and in the last position and move "." / ".." through the listing)
  *       seed:n  Fisher-Yates shuffle of the strcmp-sorted entries with a PRNG seeded from n and a hash of
  *               the sorted names, i.e. a function of (n, directory contents) only
  *   RDSHIM_LOG  = file; appended: "D <hex path of the directory>" followed by one "E <hex name>" per entry
@@ -83,6 +88,23 @@ static void permute(struct dbuf *b)
 			b->ents[i] = b->ents[b->count - 1 - i];
 			b->ents[b->count - 1 - i] = t;
 		}
+		return;
+	}
+	if (!strncmp(mode, "rot:", 4) || !strncmp(mode, "rrot:", 5)) {
+		int rev = mode[1] == 'r';
+		size_t k = (size_t)strtoull(mode + (rev ? 5 : 4), NULL, 10), n = b->count;
+		struct dirent **tmp;
+
+		if (n == 0)
+			return;
+		tmp = malloc(n * sizeof(tmp[0]));
+		if (tmp == NULL)
+			abort();
+		for (i = 0; i < n; ++i)
+			tmp[i] = b->ents[rev ? n - 1 - i : i];
+		for (i = 0; i < n; ++i)
+			b->ents[i] = tmp[(i + k) % n];
+		free(tmp);
 		return;
 	}
 	if (!strncmp(mode, "seed:", 5)) {
